@@ -13,6 +13,7 @@
 //! host values is balanced after every call.
 
 pub mod family;
+pub mod nan;
 pub mod perm;
 
 use c00ref::*;
@@ -233,7 +234,7 @@ impl Check for C02 {
         "C02"
     }
     fn units(&self, cfg: &Cfg) -> usize {
-        layout_units(cfg) + perm::field_sets(perm_alpha(cfg)).len()
+        layout_units(cfg) + perm::field_sets(perm_alpha(cfg)).len() + 1
     }
     fn case_timeout_s(&self, cfg: &Cfg) -> f64 {
         // generous: on a heavily loaded machine the one-second batch compile
@@ -243,6 +244,9 @@ impl Check for C02 {
     fn run_unit(&self, unit: usize, cx: &mut Cx) {
         if !cx.case(SUB_SETUP) {
             return;
+        }
+        if unit == layout_units(&cx.cfg) + perm::field_sets(perm_alpha(&cx.cfg)).len() {
+            return nan::run(cx);
         }
         let Some(u) = build_unit(&cx.cfg, unit) else { return };
         // Every death costs a fresh worker and a recompilation of the batch.
@@ -417,6 +421,9 @@ impl Check for C02 {
         }
     }
     fn describe(&self, cfg: &Cfg, unit: usize, sub: u64) -> Value {
+        if unit == layout_units(cfg) + perm::field_sets(perm_alpha(cfg)).len() {
+            return nan::describe(sub as usize);
+        }
         let Some(u) = build_unit(cfg, unit) else { return json!({"unit": unit}) };
         if sub == SUB_SETUP || sub == BATCH {
             return json!({"phase": "batch compile", "layout": u.fields, "program": print_program(&u.batch())});
